@@ -109,6 +109,8 @@ def run(ctx):
     rep.rule('R17.2', 'no handler between the insert and the function exit swallows the exception')
     rep.rule('R17.3', 'a connection opened by petl is closed in a finally that encloses the load; todb/appenddb do not commit themselves')
     rep.rule('R17.4', 'todb passes truncate=True, appenddb truncate=False; the dispatcher forwards commit and truncate unchanged')
+    rep.rule('R17.5', 'the dispatcher reaches an implementation on every path that returns normally (no early return: todb always truncates)')
+    rep.rule('R17.6', 'who may end a transaction: commit() / rollback() are called by the _todb_* implementations only, never by the read side (fromdb iterators) or helpers')
     rep.assumptions = ['DB-API semantics: DELETE/INSERT are pending until commit(); closing a connection without commit rolls back',
                        'DDL issued by create=True (drop/create table) is outside the clause']
     rep.trusted = ['structured abstract interpreter (exception and finally paths)']
@@ -145,6 +147,8 @@ def run(ctx):
             rep.violated('R17.4', fn, 'def ' + fn.name, 'expected one delegation to _todb_sqlalchemy_connection', fn.node)
     r173(ctx, rep, mod)
     r174(ctx, rep, mod)
+    r175(ctx, rep, mod)
+    r176(ctx, rep, mod)
 
 
 def _check_impl(rep, fn):
@@ -274,3 +278,76 @@ def r174(ctx, rep, mod):
     commits = [c for c in _calls(fn.node) if _is_commit(c)]
     for c in commits:
         rep.violated('R17.1', fn, norm(c), 'the dispatcher must not commit', c)
+
+
+class _Dispatched(BaseDomain):
+    """must-fact 'D': one of the _todb_* implementations has been called"""
+
+    def __init__(self):
+        self.exits = []      # (node or None, has D)
+
+    def entry_state(self):
+        return frozenset()
+
+    def join(self, a, b):
+        return a & b
+
+    def equal(self, a, b):
+        return a == b
+
+    def may_raise(self, s, st):
+        return {ANY} if any(True for _ in _calls(s)) else set()
+
+    def may_raise_expr(self, e, st):
+        return {ANY} if any(True for _ in _calls(e)) else set()
+
+    def exec_simple(self, s, st):
+        if any(norm(c.func).startswith('_todb_') for c in _calls(s)):
+            return frozenset(st | {'D'})
+        return st
+
+    def exec_return(self, s, st):
+        d = 'D' in st or any(norm(c.func).startswith('_todb_') for c in _calls(s))
+        self.exits.append((s, d))
+        return st
+
+
+def r175(ctx, rep, mod):
+    fn = mod.functions.get('_todb')
+    if fn is None:
+        raise AnalysisError('anchor vanished: petl.io.db:_todb')
+    dom = _Dispatched()
+    it = Interp(fn.node, dom)
+    end_state = it.block(fn.node.body, dom.entry_state())     # state when falling off the end (None: unreachable)
+    bad = [s for s, d in dom.exits if not d]
+    for s in bad:
+        rep.violated('R17.5', fn, norm(s)[:60],
+                     '_todb returns without having called an implementation: todb() then neither empties the table nor loads '
+                     'anything although it reports success (e.g. an early return for a source without data rows leaves the '
+                     'old rows in place)', s)
+    if end_state is not None and 'D' not in end_state:
+        rep.violated('R17.5', fn, 'end of _todb', '_todb can fall off its end without having called an implementation', fn.node)
+    if not bad and (end_state is None or 'D' in end_state):
+        rep.held('R17.5', fn, 'def _todb', 'every normal exit follows a call of an implementation (the last branch raises)', fn.node)
+
+
+def r176(ctx, rep, mod):
+    allowed = set(IMPLS)
+    n = 0
+    for q, fn in sorted(mod.functions.items()):
+        for c in _calls(fn.node):
+            if isinstance(c.func, ast.Attribute) and c.func.attr in ('commit', 'rollback'):
+                if any(c2 is c for c2 in own_nodes(fn.node)) is False:
+                    continue
+                n += 1
+                top = q.split('.')[0]
+                if top in allowed:
+                    rep.held('R17.6', fn, norm(c), 'inside a load implementation (ordering: R17.1)', c)
+                else:
+                    rep.violated('R17.6', fn, norm(c),
+                                 '%s ends the transaction of a connection it was lent: when a load runs on the same connection '
+                                 '(its source is fromdb(connection, ...), or the table is read back afterwards) the DELETE and the '
+                                 'rows inserted so far are committed behind the back of todb/appenddb, also with commit=False and '
+                                 'after a failure' % q, c)
+    if n < 4:
+        raise AnalysisError('anchor vanished: only %d commit sites in petl.io.db' % n)
